@@ -17,7 +17,7 @@ from __future__ import annotations
 import ast
 
 from .. import astutil as A
-from ..alg import RaisedInFragment, Closure, Interp, Obj, Poly, Undecided
+from ..alg import RaisedInFragment, Closure, Interp, Obj, Poly, PyFunc, Undecided
 from ..dep import FlowDeps
 
 EXPLANATION = (
@@ -652,7 +652,7 @@ def _one_workspace(repo):
                 w.add_func(f_)
         spec = {"channels": [{"name": "SR", "samples": [{"name": "bkg", "data": [at("b0"), at("b1")], "modifiers": [{"name": "mu", "type": "normfactor", "data": None}, {"name": "other", "type": "normfactor", "data": None}]}]}],
                 "observations": [{"name": "SR", "data": [at("o0"), at("o1")]}],
-                "measurements": [{"name": "left_measurement", "config": {"poi": "mu", "parameters": [{"name": "mu", "bounds": [[at("lo"), at("hi")]]}]}}], "version": "1.0.0"}
+                "measurements": [{"name": "left_measurement", "config": {"poi": "mu", "parameters": [{"name": "mu", "bounds": [[at("lo"), at("hi")]]}, {"name": "sig_only", "inits": [at("sig_init")], "fixed": True}]}}], "version": "1.0.0"}
         ws = w.new(wsc, [spec], {"validate": False})
 
         def show(v):
@@ -684,16 +684,48 @@ def _model_history_body(ctx, rid, w, ws, mm, calls, show, errs):
             if mkw.get("poi_name", "<absent>") != want_poi:
                 bad = f"{lab}: the model is built with poi_name={mkw.get('poi_name', '<absent>')!r}; this call asks for {want_poi!r}"
                 break
-            if show(mspec.get("channels") if isinstance(mspec, dict) else None) != payload0.get("channels") or show(mspec.get("parameters")) != payload0["measurements"][0]["config"]["parameters"]:
+            in_model = {m_["name"] for ch_ in (mspec.get("channels") or []) for s_ in ch_.get("samples", []) for m_ in s_.get("modifiers", [])} if isinstance(mspec, dict) else set()
+            relevant = lambda ps_: [p_ for p_ in (ps_ or []) if p_.get("name") in in_model]  # settings for parameters the model does not have are ignored by Model
+            if show(mspec.get("channels") if isinstance(mspec, dict) else None) != payload0.get("channels") or show(relevant(mspec.get("parameters"))) != relevant(payload0["measurements"][0]["config"]["parameters"]):
                 bad = f"{lab}: the specification handed to Model is not the workspace's channels and the measurement's parameter settings"
                 break
             if show(ws.attrs.get("__payload__")) != payload0:
                 bad = f"{lab}: the call changed the workspace itself (what it stores for the measurement): a later call, or json.dumps(workspace), sees the option of THIS call"
                 break
+        if not bad and any(p_.get("name") == "sig_only" for p_ in ws.attrs["__payload__"]["measurements"][0]["config"]["parameters"]):
+            # the usual signal-patch workflow: the measurement already configures a parameter that only the PATCH brings into the model
+            added = {"name": "signal", "data": [Poly.atom("s0"), Poly.atom("s1")], "modifiers": [{"name": "sig_only", "type": "normfactor", "data": None}]}
+
+            def json_patch(a, k):
+                def apply(a2, k2):
+                    doc = a2[0]
+                    if k2.get("in_place") is True:
+                        tgt = doc
+                    else:
+                        tgt = {k_: _deep(v_) for k_, v_ in doc.items()}
+                    tgt["channels"][0]["samples"].append(_deep(added))
+                    return tgt
+                return Obj("JsonPatch", {"apply": PyFunc(apply, "apply")}, closed=True)
+
+            w.base["JsonPatch"] = json_patch
+            w.ext = None
+            n0 = len(calls)
+            w.call_method(ws, "model", [], {"patches": [Obj("signal patch")]})
+            w.base.pop("JsonPatch", None)
+            w.ext = None
+            mspec, mkw = calls[-1] if len(calls) == n0 + 1 else ({}, {})
+            names_ = [p_.get("name") for p_ in (mspec.get("parameters") or [])] if isinstance(mspec, dict) else []
+            smp_ = [s_["name"] for s_ in mspec["channels"][0]["samples"]] if isinstance(mspec, dict) and mspec.get("channels") else []
+            if "signal" not in smp_:
+                bad = "sixth call, with a signal patch: the patched sample does not reach the model"
+            elif "sig_only" not in names_ or show([p_ for p_ in mspec["parameters"] if p_.get("name") == "sig_only"][0]) != {"name": "sig_only", "inits": ["sig_init"], "fixed": True}:
+                bad = f"sixth call, with a signal patch: the measurement's settings for `sig_only` -- a parameter the patch brings into the model -- do not reach Model (parameter settings handed over: {names_}); the patched-in parameter silently gets its defaults"
+            elif show(ws.attrs.get("__payload__")) != payload0:
+                bad = "sixth call, with a signal patch: the patch was written into the workspace itself"
         if bad:
             ctx.violated(rid, mm, "Workspace.model() history on one workspace object", bad, expected="every call: Model(channels, measurement parameters, the POI this call asks for); workspace payload unchanged", found=bad)
         else:
-            ctx.holds(rid, f"{WS}::Workspace.model [5 calls on one object: default POI, override, default, POI-less, default]", "each call builds from this call's options; the workspace payload is unchanged")
+            ctx.holds(rid, f"{WS}::Workspace.model [calls on one object: default POI, override, default, POI-less, default, a signal patch]", "each call builds from this call's options and patches, with the measurement's settings for patched-in parameters; the workspace payload is unchanged")
     except RaisedInFragment as e:
         ctx.violated(rid, mm, "Workspace.model() history", f"raises {e.exc_name} on a well-formed workspace")
     except errs as e:
